@@ -136,6 +136,18 @@ def r3(chk):
             chk.shape("R3", f"{getter}/source-order", good, bool(bad_), ATTR, prod["line"],
                       what="attributes are regrouped / filtered before being parsed: a bare attribute and the same instruction inside #[o2o(..)] are no longer handled at the same position",
                       expected="for x in input.iter()", found={"iter": it[:100], "adaptors": bad_})
+        # every instruction parsed out of an #[o2o(..)] list is kept: the list is appended as a whole, under no condition on its content
+        from ..panics import guard_conjuncts
+        exts = [m for m in method_calls(fi.body, "extend") if render(m["recv"]).replace(" ", "") in ("instrs",)] + \
+               [m for m in method_calls(fi.body, "append") if render(m["recv"]).replace(" ", "") in ("instrs",)]
+        for k_, m in enumerate(exts):
+            arg = render(m["args"][0]).replace(" ", "") if m["args"] else ""
+            conds = guard_conjuncts(fi, m)
+            cond_bad = [c for c in conds if re.search(r"AllowUnknown|allow_unknown", c)]
+            pruned = re.search(r"\.(take_while|skip_while|filter|take|skip|step_by|filter_map)\(", arg)
+            chk.shape("R3", f"{getter}/list-kept#{k_}", not cond_bad and not pruned and re.fullmatch(r"&?(mut)?\w+(\.into_iter\(\)|\.drain\(\.\.\))?", arg) is not None, bool(cond_bad) or bool(pruned), ATTR, m["line"],
+                      what="instructions grouped in one #[o2o(..)] list are dropped (the list is appended only under a condition on its content, or pruned): the grouped spelling no longer equals the separate attributes",
+                      expected="instrs.extend(new_instrs)", found={"argument": arg[:80], "conditions": cond_bad})
         # each parser call's error must propagate
         for node, parents in walk_with_parents(fi.body):
             if node["k"] == "Call" and node["func"]["k"] == "Path" and node["func"]["segs"][-1] == parser:
